@@ -531,7 +531,7 @@ func (h *Hist) reopen(when string, op Op) {
 	}
 	defer snap.Close()
 	if op.Drain && !dirty {
-		if d := CompareSnapshot(snap, h.Model, h.readOpts(), "reopened"); d != "" {
+		if d := CompareSnapshot(snap, h.Model, h.storeReadOpts(), "reopened"); d != "" {
 			h.Failf("%s: content after clean shutdown and reopen differs from reference (%d batches): %s", when, n, d)
 		}
 		h.Persisted = n
@@ -545,7 +545,7 @@ func (h *Hist) reopen(when string, op Op) {
 	}
 	match := -1
 	for p := n; p >= 0; p-- {
-		if got.Equal(h.States[p]) {
+		if got.Equal(h.States[p]) || (excluded("struct-only-into-empty-store") && nodeKeyless(got) && nodeKeyless(h.States[p])) {
 			match = p
 			break
 		}
@@ -563,7 +563,7 @@ func (h *Hist) reopen(when string, op Op) {
 		h.Label("reopen:early-complete")
 	}
 	// full check incl. Gets on the matched state, then continue from it
-	if d := CompareSnapshot(snap, h.States[match], h.readOpts(), "reopened"); d != "" {
+	if d := CompareSnapshot(snap, h.States[match], h.storeReadOpts(), "reopened"); d != "" {
 		h.Failf("%s: reopened content (prefix %d): %s", when, match, d)
 	}
 	h.Model = h.States[match].Clone()
